@@ -136,6 +136,16 @@ def accepts(sig, n, K):
         return False
 
 
+def unhashable(obj):
+    try:
+        hash(obj)
+    except TypeError:
+        return True
+    except Exception:  # noqa: a __hash__ that raises something else is not this case
+        return False
+    return False
+
+
 def check_object(name, obj, st, origin):
     case = {'origin': origin, 'name': name}
     st.inc('states')
@@ -145,9 +155,12 @@ def check_object(name, obj, st, origin):
         st.inc('transitions')
         if ref[0] == 'ok':
             if got[0] != 'ok':
+                feat = {'mode': mode, 'exception': got[1].__name__, 'origin': origin}
+                if got[1] is TypeError and unhashable(obj) and str(got[2]).startswith('unhashable type'):
+                    feat = {'cause': 'unhashable-callable'}
                 st.violation('retrieval-raises-where-inspect-succeeds', dict(case, mode=mode),
                              {'object': name, 'mode': mode, 'error': '%s: %s' % (got[1].__name__, str(got[2])[:300]),
-                              'inspect': str(ref[1])}, {'mode': mode, 'exception': got[1].__name__, 'origin': origin})
+                              'inspect': str(ref[1])}, feat)
                 continue
             if not isinstance(got[1], _S.UpgradedSignature):
                 st.violation('retrieval-returns-non-upgraded', dict(case, mode=mode),
@@ -498,6 +511,119 @@ def check_globals_kinds(st):
             batch.close()
 
 
+ODD_SRC = '''
+import functools
+
+
+def OD_callee(x, y, *, z):
+    return x
+
+
+def OD_kwonly(*, z):
+    return z
+
+
+def OD_rec(n, *args, **kwargs):
+    return OD_rec(n - 1, *args, **kwargs)
+
+
+def OD_mutual_a(*args, **kwargs):
+    return OD_mutual_b(*args, **kwargs)
+
+
+def OD_mutual_b(*args, **kwargs):
+    return OD_mutual_a(*args, **kwargs)
+
+
+def OD_outer(*args, **kwargs):
+    return OD_callee(*args, **kwargs)
+
+
+def OD_mkpartial(*args, **kwargs):
+    return functools.partial(*args, **kwargs)
+
+
+def OD_starseq(seq, *args, **kwargs):
+    return OD_callee(*seq, **kwargs)
+
+
+def OD_starmap(mapping, *args, **kwargs):
+    return OD_callee(*args, **mapping)
+
+
+def OD_po_kw(a, /, **kw):
+    return a, kw
+
+
+class OD_K(object):
+    def noself(*args, **kwargs):
+        return OD_kwonly(*args, **kwargs)
+
+    @property
+    def raising(self):
+        raise RuntimeError('attribute getter raises')
+
+    def to_raising(self, *args, **kwargs):
+        return self.raising(*args, **kwargs)
+
+    def to_missing(self, *args, **kwargs):
+        return self.nowhere(*args, **kwargs)
+
+    def starself(self, *args, **kwargs):
+        return OD_callee(*self, **kwargs)
+
+
+class OD_Unhashable(object):
+    __hash__ = None         # what @dataclass(eq=True) leaves behind
+
+    def __call__(self, a, b=1):
+        return a
+
+
+class OD_UnhashableForwarder(object):
+    __hash__ = None
+
+    def __call__(self, a, *args, **kwargs):
+        return OD_callee(*args, **kwargs)
+
+
+def odd_objects():
+    k = OD_K()
+    return [
+        ('unhashable callable instance', OD_Unhashable()),
+        ('unhashable callable instance that forwards', OD_UnhashableForwarder()),
+        ('bound __call__ of an unhashable instance', OD_Unhashable().__call__),
+        ('self-recursive forwarder', OD_rec),
+        ('mutually recursive forwarders', OD_mutual_a),
+        ('partial binding a keyword the callee lacks', functools.partial(OD_outer, q=1)),
+        ('partial binding more positionals than the callee takes', functools.partial(OD_outer, 1, 2, 3)),
+        ('partial binding positional and keyword for one parameter', functools.partial(OD_outer, 1, x=3)),
+        ('bound method without an explicit self', k.noself),
+        ('forwarding into functools.partial itself', OD_mkpartial),
+        ('partial of the former', functools.partial(OD_mkpartial, OD_callee)),
+        ('method forwarding to a property that raises', k.to_raising),
+        ('method forwarding to a missing attribute', k.to_missing),
+        ('partial binding a non-iterable to a starred parameter', functools.partial(OD_starseq, 5)),
+        ('partial binding a non-mapping to a double-starred parameter', functools.partial(OD_starmap, 5)),
+        ('method starring self', k.starself),
+        ('partial binding a keyword named like a positional-only parameter', functools.partial(OD_po_kw, 1, a=2)),
+    ]
+'''
+
+
+def check_odd(st):
+    """Sourced forwarders that are legal Python but leave discovery nothing sensible to say: recursion, partial objects
+    binding what the discovered callee cannot take, attribute getters that raise, stars applied to bound values."""
+    batch = progs.Batch(prelude='')
+    batch.add(ODD_SRC, 30)
+    batch.load()
+    try:
+        for name, obj in batch.get('odd_objects')():
+            check_object('odd:' + name, obj, st, 'odd')
+    finally:
+        batch.close()
+
+
 def menagerie():
     """Odd callables."""
     import collections
@@ -607,6 +733,7 @@ def shard(tier, sh):
     elif kind == 'adversarial':
         check_adversarial(st)
         check_globals_kinds(st)
+        check_odd(st)
     elif kind == 'menagerie':
         for name, obj in menagerie():
             check_object(name, obj, st, 'menagerie')
@@ -672,6 +799,8 @@ def replay(art):
                 check_object(name, obj, st, 'menagerie')
     elif c.get('origin') == 'globals':
         check_globals_kinds(st)
+    elif c.get('origin') == 'odd':
+        check_odd(st)
     else:
         check_adversarial(st)
     return [v['detail'] for v in st.viol] or None
